@@ -1011,7 +1011,7 @@ Section Theorems.
     oqeq (spec_emod L (rescale_setup S lam) v (rescale_event (l_feat L) lam ev))
          (spec_emod L S v ev).
   Proof.
-    intros HL HS Hlam Hd. rewrite !spec_emod_unfold.
+    intros HL HS Hlam Hd. clear eta. rewrite !spec_emod_unfold.
     pose proof (pos_neq0 _ Hlam) as Nl. pose proof (pos_neq0 _ HS) as Nc.
     pose proof (pos_neq0 _ (ok_cw L HL)) as NL.
     assert (Ex : normq (spec_x L (rescale_setup S lam)
@@ -1048,7 +1048,7 @@ Section Theorems.
                           (map (rescale_event (l_feat L) lam) evs))
             (route_scalar L S v evs).
   Proof.
-    intros HL HS Hlam Hd.
+    intros HL HS Hlam Hd. clear eta.
     assert (HS' : setup_ok (rescale_setup S lam)).
     { unfold setup_ok, rescale_setup in *. simpl. now apply Qmult_lt_0_compat. }
     eapply F2_trans; [apply route_scalar_spec; auto|].
@@ -1241,7 +1241,7 @@ Proof.
       { assert (X : lam * px * (lam * px) + x * (lam * lam)
                     == (px * px + x) * (lam * lam)) by ring.
         rewrite X, E. ring. }
-      unfold Qdiv. rewrite E', E. reflexivity.
+      unfold Qdiv. rewrite E', E. change (/ 0) with 0. ring.
     + field. split; auto. intros E. apply N.
       assert (X : lam * px * (lam * px) + x * (lam * lam)
                   == (px * px + x) * (lam * lam)) by ring.
@@ -1252,7 +1252,7 @@ Proof.
       { assert (X : lam * px * (lam * px) * (lam * px) + x * (lam * lam * lam)
                     == (px * px * px + x) * (lam * lam * lam)) by ring.
         rewrite X, E. ring. }
-      unfold Qdiv. rewrite E', E. reflexivity.
+      unfold Qdiv. rewrite E', E. change (/ 0) with 0. ring.
     + field. split; auto. intros E. apply N.
       assert (X : lam * px * (lam * px) * (lam * px) + x * (lam * lam * lam)
                   == (px * px * px + x) * (lam * lam * lam)) by ring.
